@@ -113,6 +113,14 @@ def collisions(tier, rep):
     nsib = 0
     if sib:
         res3, d3 = dxlib.run_dx('plain', sib, 'c07sib', 'A', 'ref', deadline=300)
+        # mode 18 depends on the caller's nuclear matrix elements: its sibling histories again with the two other sets (with the
+        # first one a nuclear radius frozen by the first user of the mode only rescales the spectrum)
+        sib18 = ['dbd %s 0 18 -1 -1 HIST dbd %s:0:18 -' % (a, ring[(i + 1) % len(ring)]) for i, a in enumerate(ring)]
+        for k in (1, 2):
+            rk, dk = dxlib.run_dx('plain', sib18, 'c07sib', 'A', 'ref', deadline=300, extra=['--nme-set', str(k)])
+            for r in rk:
+                r['key'] = r['key'] + ':nme%d' % (k + 1)
+            res3 += rk
         for r in res3:
             if 'crashed' in r:
                 rep.violation('sibling:%s:crash' % r['key'], 'explorer child died (%s) on %s' % (r['crashed'], r['key']))
